@@ -43,6 +43,7 @@ from .token import (
 IGNORED_CHARS = "\n\r\ufeff\t ,"
 
 DIGITS = "0123456789"
+HEX_DIGITS = "0123456789abcdefABCDEF"
 
 SYMBOLS = {
     cls.value: cls
@@ -235,12 +236,12 @@ class Lexer:
 
             self._position += 1
 
-            if not char.isalnum():
+            if char not in HEX_DIGITS:
                 break
 
         escape = self._source[start : self._position]
 
-        if len(escape) != 4:
+        if len(escape) != 4 or escape[-1] not in HEX_DIGITS:
             raise InvalidEscapeSequence(
                 "\\u%s" % escape, start - 1, self._source
             )
